@@ -303,10 +303,8 @@ def strict_process_fail():
     import io
     import warnings
     import mido
-    blob = io.BytesIO()
-    mido.MidiFile(tracks=[mido.MidiTrack([mido.MetaMessage('text', text='abc')])]).save(file=blob)
-    blob = blob.getvalue()
-    want = list(mido.MetaMessage('text', text='caf\xe9').bytes())
+    blob = bytes([77, 84, 104, 100, 0, 0, 0, 6, 0, 1, 0, 1, 1, 224, 77, 84, 114, 107, 0, 0, 0, 11, 0, 0xff, 1, 3, 97, 98, 99, 0, 0xff, 0x2f, 0])
+    want = [0xff, 0x01, 4] + list('caf\xe9'.encode('latin1'))       # FF 01 len payload in the default charset
     for cs in ('utf-16', 'utf-32', 'cp037', 'utf-16-le', 'utf-8', 'latin1', 'no-such-charset', 'utf_7', 'cp500'):
         for op in ('load', 'save', 'with'):
             with warnings.catch_warnings():
